@@ -259,23 +259,30 @@ func NewGrafanaNet(key string, matcher matcher.Matcher, cfg GrafanaNetConfig) (R
 
 // run manages incoming and outgoing data for a shard
 func (route *GrafanaNet) run(in chan []byte) {
+	defer route.wg.Done()
+
 	var metrics []*schema.MetricData
 	buffer := new(bytes.Buffer)
+
+	// add parses buf and adds it to the current batch.
+	// it reports whether the batch is full and must be flushed
+	add := func(buf []byte) bool {
+		route.numBuffered.Dec(1)
+		md, err := parseMetric(buf, route.schemas, route.Cfg.OrgID)
+		if err != nil {
+			log.Errorf("RouteGrafanaNet: parseMetric failed: %s. skipping metric", err)
+			return false
+		}
+		md.SetId()
+		metrics = append(metrics, md)
+		return len(metrics) == route.Cfg.FlushMaxNum
+	}
 
 	timer := time.NewTimer(route.Cfg.FlushMaxWait)
 	for {
 		select {
 		case buf := <-in:
-			route.numBuffered.Dec(1)
-			md, err := parseMetric(buf, route.schemas, route.Cfg.OrgID)
-			if err != nil {
-				log.Errorf("RouteGrafanaNet: parseMetric failed: %s. skipping metric", err)
-				continue
-			}
-			md.SetId()
-			metrics = append(metrics, md)
-
-			if len(metrics) == route.Cfg.FlushMaxNum {
+			if add(buf) {
 				metrics = route.retryFlush(metrics, buffer)
 				// reset our timer
 				if !timer.Stop() {
@@ -287,11 +294,20 @@ func (route *GrafanaNet) run(in chan []byte) {
 			timer.Reset(route.Cfg.FlushMaxWait)
 			metrics = route.retryFlush(metrics, buffer)
 		case <-route.shutdown:
-			metrics = route.retryFlush(metrics, buffer)
-			return
+			// drain what is still buffered for this shard, then flush the remainder
+			for {
+				select {
+				case buf := <-in:
+					if add(buf) {
+						metrics = route.retryFlush(metrics, buffer)
+					}
+				default:
+					route.retryFlush(metrics, buffer)
+					return
+				}
+			}
 		}
 	}
-	route.wg.Done()
 }
 
 func (route *GrafanaNet) retryFlush(metrics []*schema.MetricData, buffer *bytes.Buffer) []*schema.MetricData {
@@ -465,8 +481,9 @@ func (route *GrafanaNet) postConfig(path, cfg string) {
 func (route *GrafanaNet) Shutdown() error {
 	//conf := route.config.Load().(Config)
 
-	// trigger all of our queues to be flushed to the tsdb-gw
-	route.shutdown <- struct{}{}
+	// trigger all of our queues to be flushed to the tsdb-gw.
+	// closing the channel signals every worker, not just one of them
+	close(route.shutdown)
 
 	// wait for all tsdb-gw writes to complete.
 	route.wg.Wait()
